@@ -1,5 +1,6 @@
 import KV.Proofs.SecretConn
 import KV.Proofs.MConn
+import KV.Model.Transport
 /-!
 # C20 — Peer connections are authenticated, tamper-evident, ordered and exactly-once (partial)
 
@@ -495,5 +496,86 @@ over another challenge, swapped / low-order ephemeral keys, full man in the midd
 def HandshakeAuthStatement (H : Handshake) (accepts : H.Eph → H.Eph → H.Pub → H.Sig → Prop) : Prop :=
   ∀ (sk : H.Priv) (e e' : H.Eph) (sig : H.Sig),
     accepts e e' (H.pubOf sk) sig → H.signed sk (H.challenge e e')
+
+
+/-! ## the transport's identity decision (`MultiplexTransport.upgrade`) -/
+namespace Transport
+open KV.Transport
+
+/-- **upgrade_identity**: a connection becomes a `Peer` only under the ID of the key that
+authenticated the encrypted connection; for an outbound connection that is also the ID that was
+dialled, and it is the ID the peer reports about itself.  No self-reported or dialled ID can stand
+in for the connection key. -/
+theorem upgrade_identity (dialed : Option Nat) (connKey claimed selfId id : Nat) (ab co : Bool)
+    (h : upgrade dialed connKey claimed selfId ab co = .ok id) :
+    id = connKey ∧ claimed = connKey ∧ (∀ t, dialed = some t → t = connKey) ∧ selfId ≠ id ∧
+      ab = false ∧ co = true := by
+  unfold upgrade at h
+  split at h
+  · cases h
+  · rename_i h1
+    split at h
+    · cases h
+    · rename_i h2
+      split at h
+      · cases h
+      · rename_i h3
+        split at h
+        · cases h
+        · rename_i h4
+          split at h
+          · cases h
+          · rename_i h5
+            have hk : connKey = claimed := Decidable.byContradiction (fun hc => h3 hc)
+            injection h with hid
+            subst hid
+            refine ⟨hk.symm, hk.symm, ?_, ?_, ?_, ?_⟩
+            · intro t ht
+              subst ht
+              apply Decidable.byContradiction
+              intro hne
+              exact h1 ⟨rfl, fun e => hne (Option.some.inj e)⟩
+            · exact h4
+            · cases ab with
+              | true => exact absurd rfl h2
+              | false => rfl
+            · cases co with
+              | false => exact absurd rfl h5
+              | true => rfl
+
+/-- **upgrade_ok_iff**: exactly the honest, compatible, non-self connections are accepted. -/
+theorem upgrade_ok_iff (dialed : Option Nat) (connKey claimed selfId : Nat) (ab co : Bool) :
+    (∃ id, upgrade dialed connKey claimed selfId ab co = .ok id) ↔
+      ((dialed = none ∨ dialed = some connKey) ∧ claimed = connKey ∧ selfId ≠ claimed ∧
+        ab = false ∧ co = true) := by
+  constructor
+  · rintro ⟨id, h⟩
+    obtain ⟨h1, h2, h3, h4, h5, h6⟩ := upgrade_identity _ _ _ _ _ _ _ h
+    refine ⟨?_, h2, ?_, h5, h6⟩
+    · cases dialed with
+      | none => exact Or.inl rfl
+      | some t => exact Or.inr (by rw [h3 t rfl])
+    · rw [h2, ← h1]; exact h4
+  · rintro ⟨hd, hc, hs, ha, hco⟩
+    subst hc ha hco
+    refine ⟨claimed, ?_⟩
+    unfold upgrade
+    rcases hd with hd | hd <;> subst hd <;> simp [hs]
+
+/-- **impersonation_refused**: a listener whose connection key is not the dialled identity is
+refused as an authentication failure whatever it claims in its `NodeInfo` - in particular when it
+claims the dialled ID itself. -/
+theorem impersonation_refused (t connKey claimed selfId : Nat) (ab co : Bool) (h : t ≠ connKey) :
+    upgrade (some t) connKey claimed selfId ab co = .auth := by
+  unfold upgrade
+  have : (some t : Option Nat) ≠ some connKey := fun e => h (Option.some.inj e)
+  simp [this]
+
+/-- non-vacuity: the honest dial is accepted; the liar of `impersonation_refused` with
+`claimed = t` is not -/
+example : upgrade (some 1) 1 1 0 false true = .ok 1 ∧ upgrade (some 1) 2 1 0 false true = .auth ∧
+    upgrade none 2 1 0 false true = .auth := by decide
+
+end Transport
 
 end KV.C20
